@@ -32,6 +32,8 @@ def linear(e: ast.AST) -> dict[str, int] | None:
         return {'': e.value}
     if isinstance(e, ast.Name):
         return {e.id: 1}
+    if isinstance(e, ast.Attribute) and dotted(e):
+        return {dotted(e): 1}           # a field of a record: r.end
     if isinstance(e, ast.BinOp) and isinstance(e.op, (ast.Add, ast.Sub)):
         a, b = linear(e.left), linear(e.right)
         if a is None or b is None:
@@ -460,11 +462,24 @@ def analyse_callers(rep: Report) -> None:
                          and a.value.id == asg.targets[0].id and isinstance(a.targets[0], ast.Tuple)]
                 if len(later) == 1:
                     asg = later[0]
-            if asg is None or not isinstance(asg.targets[0], ast.Tuple) \
-                    or len(asg.targets[0].elts) != 4:
+            rec_fields = None
+            if asg is not None and isinstance(asg.targets[0], ast.Name):
+                # kept as the record the function returns and read by field name: r.start, r.end
+                btree = rep.repo.tree(BASE)
+                g_raw = find_func(need(find_class(btree, 'RequestHandlerBase'), 'RequestHandlerBase'), 'get_http_range', raw=True)
+                rcls = {call_name(r_.value) for r_ in ast.walk(g_raw) if isinstance(r_, ast.Return)
+                        and isinstance(r_.value, ast.Call)} if g_raw is not None else set()
+                if len(rcls) == 1:
+                    rc = next((c_ for c_ in btree.body if isinstance(c_, ast.ClassDef) and c_.name == next(iter(rcls))), None)
+                    if rc is not None:
+                        fields = [x.target.id for x in rc.body if isinstance(x, ast.AnnAssign) and isinstance(x.target, ast.Name)]
+                        if len(fields) == 4:
+                            rec_fields = [f'{asg.targets[0].id}.{f_}' for f_ in fields]
+            if rec_fields is None and (asg is None or not isinstance(asg.targets[0], ast.Tuple)
+                                       or len(asg.targets[0].elts) != 4):
                 raise AnalysisError(f'{construct}: result of get_http_range is not unpacked '
                                     'into four names')
-            s_name, e_name = (norm(x) for x in asg.targets[0].elts[:2])
+            s_name, e_name = rec_fields[:2] if rec_fields is not None else (norm(x) for x in asg.targets[0].elts[:2])
             uses = 0
             # (b0) the length handed in is the length of the bytes that are sliced
             larg = n.args[0] if n.args else None
